@@ -11,6 +11,7 @@ package main
 import (
 	"encoding/json"
 	"fmt"
+	"hash/crc32"
 	"math/rand"
 
 	"github.com/jrhy/mast"
@@ -91,10 +92,11 @@ type faultEvent struct {
 	RPost  faultObs  `json:"rpost"`
 	Counts []int     `json:"counts"` // dry run: loads, compares, marshals, unmarshals
 	// after a failed insert / delete: the tree as a MakeRoot of a clone persists it, with the height it records
-	POk     bool   `json:"pok"`
-	PTerm   []term `json:"pterm"`
-	PHeight int    `json:"pheight"`
-	PSize   int    `json:"psize"`
+	POk     bool    `json:"pok"`
+	PTerm   []term  `json:"pterm"`
+	NData   [][]int `json:"ndata"` // dlinks: what the undisturbed call reports
+	PHeight int     `json:"pheight"`
+	PSize   int     `json:"psize"`
 }
 
 type faultTree struct {
@@ -325,6 +327,18 @@ func (t *faultTree) run(c faultCall) (res, msg string, data [][]int) {
 				get()
 			}
 			return nil
+		case "dlinks":
+			return t.m.DiffLinks(ctx, t.other, func(removed bool, link interface{}) (bool, error) {
+				kind, n := 1, -1
+				if removed {
+					kind = 2
+				}
+				if name, ok := link.(string); ok {
+					n = int(crc32.ChecksumIEEE([]byte(name)) >> 2)
+				}
+				data = append(data, []int{kind, n})
+				return true, nil
+			})
 		case "diff":
 			return t.m.DiffIter(ctx, t.other, func(added, removed bool, key, av, rv interface{}) (bool, error) {
 				rk := func(v interface{}) int {
@@ -396,7 +410,7 @@ func faultCalls(t *faultTree, rng *rand.Rand) []faultCall {
 		}
 		return r
 	}
-	cs = append(cs, faultCall{Op: "iter"}, faultCall{Op: "clone"}, faultCall{Op: "diff"},
+	cs = append(cs, faultCall{Op: "iter"}, faultCall{Op: "clone"}, faultCall{Op: "diff"}, faultCall{Op: "dlinks"},
 		faultCall{Op: "walk", Start: "min", Moves: mv(len(present)+1, true)},
 		faultCall{Op: "walk", Start: "max", Moves: mv(len(present)+1, false)},
 		faultCall{Op: "walk", Start: "ceil", K: 1 + rng.Intn(nk), Moves: []string{"F", "B", "B", "F"}})
@@ -419,7 +433,7 @@ func faultsFamily(seed int64, n int, out *json.Encoder, perKind int) {
 			td := buildFaultTree(i+1, tseed)
 			td.fc.reset()
 			td.st.begin()
-			dres, _, _ := td.run(c)
+			dres, _, ddata := td.run(c)
 			sev := td.st.end()
 			loads, _ := distinctLoads(sev)
 			counts := []int{loads, td.fc.counts["cmp"], td.fc.counts["marshal"], td.fc.counts["unmarshal"]}
@@ -452,7 +466,10 @@ func faultsFamily(seed int64, n int, out *json.Encoder, perKind int) {
 			for _, p := range plans {
 				t := buildFaultTree(i+1, tseed)
 				ev := &faultEvent{Op: "fault", ID: i + 1, Cfg: &t.cfg, Prep: t.prep, Call: c, Kind: p.kind, At: p.at, At2: p.at2, Counts: counts,
-					OEnts: pairsOf(t.omod)}
+					OEnts: pairsOf(t.omod), NData: [][]int{}}
+				if c.Op == "dlinks" {
+					ev.NData = ddata // the undisturbed run of the node diff (judged for itself by C07) is the normal outcome here
+				}
 				ev.Pre = t.observe()
 				t.fc.reset()
 				t.fc.kind, t.fc.at, t.fc.at2 = p.kind, p.at, p.at2
